@@ -320,9 +320,17 @@ impl<P: SimPrefix> World<P> {
                 self.exec_entry(ctx, i, *k, acts, *panic_at)?;
                 Ok(StepOut { touched: vec![i] })
             }
-            Step::CloneInto { m, dst } => {
+            Step::CloneInto { m, dst, clone_from } => {
                 let (i, d) = (self.mi(*m), self.mi(*dst));
-                let c = ctx.mutate("clone", || self.maps[i].real.clone())?;
+                let c = if *clone_from && i != d {
+                    // `clone_from` into the destination (which has a free list of its own past)
+                    let mut c = std::mem::take(&mut self.maps[d].real);
+                    ctx.mutate("clone_from", || c.clone_from(&self.maps[i].real))?;
+                    ctx.hit("step.clone_from");
+                    c
+                } else {
+                    ctx.mutate("clone", || self.maps[i].real.clone())?
+                };
                 let tc = truth_of(&c.verif_snapshot());
                 chk!(ctx, "C19", tc.ents == self.truths[i].ents, "clone:contents", "clone has {:?}, original {:?}", tc.ents, self.truths[i].ents);
                 let eq = ctx.obs("C19", "eq", || c == self.maps[i].real && self.maps[i].real == c)?;
@@ -495,12 +503,18 @@ impl<P: SimPrefix> World<P> {
                 sw.canonical = true;
                 Ok(StepOut { touched: vec![nm + i] })
             }
-            Step::SCloneInto { s, dst } => {
+            Step::SCloneInto { s, dst, clone_from } => {
                 if self.sets.is_empty() {
                     return Ok(StepOut { touched: vec![] });
                 }
                 let (i, d) = (self.si(*s), self.si(*dst));
-                let c = ctx.mutate("set.clone", || self.sets[i].real.clone())?;
+                let c = if *clone_from && i != d {
+                    let mut c = std::mem::take(&mut self.sets[d].real);
+                    ctx.mutate("set.clone_from", || c.clone_from(&self.sets[i].real))?;
+                    c
+                } else {
+                    ctx.mutate("set.clone", || self.sets[i].real.clone())?
+                };
                 let tc = truth_of(&c.verif_snapshot());
                 chk!(ctx, "C19", tc.ents == self.truths[nm + i].ents, "set.clone:contents", "set clone has {:?}, original {:?}", tc.ents, self.truths[nm + i].ents);
                 let eq = ctx.obs("C19", "set.eq", || c == self.sets[i].real && self.sets[i].real == c)?;
